@@ -633,6 +633,26 @@ func c09CacheInvalidate(c *Ctx) {
 					ok = true
 				}
 			}
+			// … or through a same-package helper that purges the cache on each of its own paths
+			for _, hs := range sitesOf(fn) {
+				if ok || hs.Callee == nil || pkgRelOf(hs.Callee) != pkgRelOf(fn) || len(hs.Callee.Blocks) == 0 || hs.Callee == fn {
+					continue
+				}
+				for _, r := range findSites(hs.Callee, "Reset") {
+					if !strings.Contains(r.CalleeName(), "AggregatedBloomFilterCache") {
+						continue
+					}
+					all := true
+					for _, hr := range returnsOf(hs.Callee) {
+						if !dominatesInstr(r.Instr, hr.Ret) {
+							all = false
+						}
+					}
+					if all && everyPathPasses(fn, s.Instr, hs.Instr) {
+						ok = true
+					}
+				}
+			}
 			c.check(ok, "cache-invalidate", qname(fn)+" → RevertHead", p.Pos(s.Pos()), "every path from the revert to a return purges the aggregated-filter cache", "the head is reverted without purging the cache of persisted windows: a window cached before a reorg across its boundary hides the events of the replacement blocks once it is rewritten (F2)")
 		}
 	}
